@@ -5,6 +5,7 @@ CONSTANTS
  Pats <- QPats
  OptOuts <- AllOptOuts
  Orders <- Order0
+ Rels <- QRels
  Dump = TRUE
 INIT Init
 NEXT Next
